@@ -322,7 +322,10 @@ func checkDeliveries(rc *core.RunCtx, w *World, ops []sendOp, prop string, lossy
 				if _, typ := payloadKey(mkPayload(s.kind, s.key)); s.kind >= 0 && typ != g.typ {
 					rc.Violate2(prop, "wrong-type/"+feat, "%s was delivered as %s", s, g.typ)
 				}
-				if p, ok := lastN[s.task]; ok && s.n < p && s.to == n && s.target == id {
+				// order is promised while the connection stays up; across a lost
+				// connection the old connection's reader may still be delivering
+				// what it had received while a new connection overtakes it
+				if p, ok := lastN[s.task]; ok && s.n < p && s.to == n && s.target == id && !lossy {
 					rc.Violate2(prop, "order/"+feat, "%s delivered after a later message of the same task to the same target", s)
 				}
 				lastN[s.task] = s.n
